@@ -72,13 +72,22 @@ func vfServer(doc []byte) *LSPServer {
 }
 
 // Cases: document length 0..4 x replacement length 0..2.
-func VfN_change() int { return 5 * 3 }
+// plus (12..14) a 4-byte document that is one supplementary-plane character
+// (two UTF-16 units), ahead of the general 4-byte documents (15..17).
+func VfN_change() int { return 6 * 3 }
 
 func VfH_change() {
 	k := vfCase()
 	n, tn := k/3, k%3 // document length major, so that a case limit bounds the document length
-	vfNote("case:doc=" + string(rune('0'+n)) + ",text=" + string(rune('0'+tn)))
+	astral := n == 4
+	if n >= 4 {
+		n = 4
+	}
+	vfNote("case:doc=" + string(rune('0'+n)) + map[bool]string{true: "(astral)", false: ""}[astral] + ",text=" + string(rune('0'+tn)))
 	doc := vfBytes("d", n)
+	if astral {
+		vfAssume(doc[0] >= 0xf0)
+	}
 	text := vfBytes("t", tn)
 	vfAssume(utf8.Valid(doc))
 	vfAssume(utf8.Valid(text))
